@@ -561,3 +561,62 @@ def r11_queued_fetch_survives_planning(ctx):
 
 
 RULES.append(r11_queued_fetch_survives_planning)
+
+
+def r12_same_dataset_twice(ctx):
+    """C03.R12: a task may read one dataset through two of its parameters (`sq(a=x, b=x)`).  History on the real code: `precompute` of the
+    two-task job x -> sq (two keyword edges from x.0) gives the input record of sq; with that very record in the State, `notify` of sq's
+    completion must go through — the bookkeeping removes sq from the consumers of each of its inputs, which fails the second time if the
+    record lists x.0 twice and the consumer set holds sq once."""
+    repo = ctx.repo
+    fp = repo.func("cascade.scheduler.graph.precompute")
+    fn = repo.func("cascade.controller.notify.notify")
+    ctx.analysed(fp.qual)
+    ctx.analysed(fn.qual)
+    from ..stmts import _ConcreteIter
+    X, SQ = "x", "sq"
+    from .common import dsid
+    DX, DSQ_ = dsid(X), dsid(SQ)
+    E = "cascade.low.core.Task2TaskEdge"
+    edges = [Obj(E, {"source": DX, "sink_task": SQ, "sink_input_kw": "a", "sink_input_ps": None}), Obj(E, {"source": DX, "sink_task": SQ, "sink_input_kw": "b", "sink_input_ps": None})]
+    tdef = lambda: Obj("cascade.low.core.TaskInstance", {"definition": Obj("cascade.low.core.TaskDefinition", {"output_schema": {"0": "Any"}})})
+    job = Obj("cascade.low.core.JobInstance", {"tasks": {X: tdef(), SQ: tdef()}, "edges": edges, "ext_outputs": [], "serdes": {}}, name="JOB")
+    GR, VW = "cascade.scheduler.graph", "cascade.low.views"
+    models = {f"{GR}.decompose": lambda run, a, k, n, f: _ConcreteIter([([X, SQ], [X])]),
+              f"{GR}.enrich": lambda run, a, k, n, f: Obj("cascade.scheduler.core.ComponentCore", {"nodes": [X, SQ], "sources": [X], "distance_matrix": {}, "value": {}, "depth": 2}),
+              ("method", "map"): lambda run, a, k, n, f: [run.call_value(a[0], None, [item], {}, n, f) for item in (a[1].items if isinstance(a[1], _ConcreteIter) else list(a[1]))]}
+    ps = [p for p in Interp(repo, call_models=models, inline={"cascade.low.core.JobInstance.outputs_of", f"{VW}.dependants", f"{VW}.param_source", "cascade.scheduler.core.ComponentCore.weight"}).explore(
+        fp, args={"job_instance": job}) if p.exit[0] == "return"]
+    ctx.evals(len(ps))
+    if len(ps) != 1 or not isinstance(ps[0].exit[1], Obj):
+        ctx.undecided("C03.R12", loc(fp), f"precompute on the two-task model job: {len(ps)} returning paths")
+        return
+    pre = ps[0].exit[1].fields
+    ei, eo = pre.get("edge_i"), pre.get("edge_o")
+    if not isinstance(ei, dict) or not isinstance(eo, dict) or SQ not in ei:
+        ctx.undecided("C03.R12", loc(fp), f"unexpected preschedule maps: edge_i={vkey(ei)[:80]} edge_o={vkey(eo)[:80]}")
+        return
+    W = worker("H1")
+    env = {
+        "state.host2ds": ddict(dict), "state.ds2host": ddict(dict), "state.outputs": {}, "state.fetching_queue": {},
+        "state.purging_tracker": {k: set(v) for k, v in eo.items()}, "state.purging_queue": [],
+        "state.edge_i": ei, "state.worker2ts": ddict(dict), "state.ts2worker": ddict(dict),
+        "state.ongoing": ddict(set, {W: {SQ}}), "state.idle_workers": set(), "state.ongoing_total": 1, "state.remaining": 1,
+    }
+    ev = Obj("cascade.executor.msg.DatasetPublished", {"origin": W, "ds": DSQ_, "transmit_idx": None})
+    ip = Interp(repo, call_models={"cascade.controller.notify.consider_computable": lambda run, a, k, n, f: a[0], "cascade.controller.notify.is_last_output_of": lambda *a: True})
+    n = 0
+    for p in ip.explore(fn, env=env, args={"events": [ev], "job": job}):
+        n += 1
+        if p.exit[0] != "return":
+            ctx.violation("C03.R12", fn.qual, loc(fn), "completion of a task reading one dataset twice",
+                          f"job x -> sq(a=x.0, b=x.0): precompute records the inputs of sq as {vkey(ei.get(SQ))[:80]}; when sq completes, notify ends with {p.exit[0]} "
+                          f"{vkey(p.exit[1])[:80]} — the controller crashes from its own bookkeeping on a perfectly feasible job")
+        elif SQ in (p.heap.get("state.purging_tracker", {}).get(DX) or set()):
+            ctx.violation("C03.R12", fn.qual, loc(fn), "consumer removed", "sq completed but is still recorded as a pending consumer of x.0")
+        else:
+            ctx.ok("C03.R12", loc(fn), f"sq(a=x.0, b=x.0): inputs recorded as {vkey(ei.get(SQ))[:60]}, completion processed")
+    ctx.floor("C03.R12.paths", n, 1)
+
+
+RULES.append(r12_same_dataset_twice)
